@@ -1,5 +1,4 @@
 import Eliot.Properties.C08
-import Eliot.Generated.ActionScope
 /-!
 # C13 — typed fields are serialized exactly once; serializer failures are contained
 
@@ -241,12 +240,6 @@ theorem per_kind_serializer (env : Env) (w : World) (h : Nat) (a : Act) (ha : w.
         ((((((f.set "action_status" (.str "started")).set "timestamp" w.clock.2).set "task_uuid" (.uuid a.uuid)).set
           "action_type" (.str a.atype))).set "task_level" (.lvl (w.clock.1.nextLevel h).2)) (a.sers.map (·.1))) := by
   simp [World.startRec, ha]
-
-/-- **E9 (regenerated from /repo on every run)**: `Logger.write` begins with `dictionary = dictionary.copy()`,
-so everything after it — serialization in place, merging of global fields in `send` — works on the copy
-and the caller's dictionary is never modified (the model's messages are values, so this is the only
-place where aliasing could matter). -/
-theorem skeleton_E9 : Generated.loggerWriteCopiesFirst = true := by decide
 
 /-! ## Non-vacuity: a non-idempotent serializer (output depends on the call index), a failing one -/
 def exEnv : Env where
